@@ -301,7 +301,7 @@ def range_(*a):
         start, stop, step = a
     start, stop, step = int(start), int(stop), int(step)
     if step == 0:
-        return Arr()                               # convention: a zero step yields the empty array
+        raise Skip("zero step: undocumented (must not crash)")
     n = len(range(start, stop, step))
     if n > 2 ** 31 - 1:
         raise JErr("range too large")
@@ -323,7 +323,7 @@ def _range_float(a):
     else:
         start, stop, step = float(a[0]), float(a[1]), float(a[2])
     if step == 0:
-        return Arr()
+        raise Skip("zero step: undocumented (must not crash)")
     exact = (Fraction(stop) - Fraction(start)) / Fraction(step)
     n_exact = max(0, math.ceil(exact))
     q = (stop - start) / step
